@@ -124,48 +124,39 @@ func evalRope(s *symStr, model map[string]uint64) string {
 }
 
 // strEq decides x == y for a rope x and a rope or concrete string y.
-// Supported: identical segment shapes whose literals separate the tokens unambiguously
-// (literals adjacent to a token start/end with a non-digit, non-dot, non-minus byte).
+//
+// Supported when both ropes are "well separated": every token (decimal / dotted quad) is
+// surrounded by literal text whose adjacent character cannot occur in a token rendering
+// (digits, '.', and '-' when the decimal may be negative). Then two ropes are equal iff they have
+// the same skeleton (same literals, same token kinds in the same places) and equal payloads;
+// ropes with different skeletons are different strings.
 func (m *Machine) strEq(x *symStr, y value) value {
 	switch y := y.(type) {
 	case string:
 		return m.ropeEqConcrete(x, y)
 	case *symStr:
+		if !m.ropeUnambiguous(x) || !m.ropeUnambiguous(y) {
+			panic(unsupported("ambiguous symbolic string comparison: " + x.String() + " vs " + y.String()))
+		}
 		if len(x.segs) != len(y.segs) {
-			panic(unsupported("equality of symbolic strings of different shape: " + x.String() + " vs " + y.String()))
+			return false
 		}
 		var acc value = true
 		for i := range x.segs {
 			a, b := x.segs[i], y.segs[i]
 			if a.k != b.k {
-				panic(unsupported("equality of symbolic strings of different shape: " + x.String() + " vs " + y.String()))
+				return false
 			}
 			switch a.k {
 			case segLit:
 				if a.lit != b.lit {
-					if !m.ropeUnambiguous(x) || !m.ropeUnambiguous(y) {
-						panic(unsupported("ambiguous symbolic string comparison"))
-					}
-					// same shape, different literal: with unambiguous separators the strings differ
-					// unless the literals only differ in a way tokens could absorb; literals are
-					// required token-free at their borders, so they differ.
 					return false
 				}
 			case segDec:
-				if a.signed != b.signed || a.t.W != b.t.W {
-					ta, tb := m.widen64(a), m.widen64(b)
-					acc = m.vAnd(acc, m.mkBool(m.pool.Eq(ta, tb)))
-				} else {
-					acc = m.vAnd(acc, m.mkBool(m.pool.Eq(a.t, b.t)))
-				}
+				acc = m.vAnd(acc, m.mkBool(m.pool.Eq(m.widen64(a), m.widen64(b))))
 			case segIP4:
 				acc = m.vAnd(acc, m.mkBool(m.pool.Eq(a.t, b.t)))
-			case segOpaque:
-				panic(unsupported("comparison of opaque symbolic string"))
 			}
-		}
-		if !m.ropeUnambiguous(x) {
-			panic(unsupported("ambiguous symbolic string comparison: " + x.String()))
 		}
 		return acc
 	}
@@ -179,10 +170,31 @@ func (m *Machine) widen64(g seg) *smt.Term {
 	return m.pool.Zext(g.t, 64)
 }
 
-// ropeUnambiguous: no two tokens adjacent; literals next to a token do not begin/end with
-// characters a token rendering could contain.
+// decMayBeNegative: can the decimal token render a minus sign?
+func (m *Machine) decMayBeNegative(g seg) bool {
+	if !g.signed {
+		return false
+	}
+	if m.lia.NonNegative(g.t) {
+		return false
+	}
+	if v, ok := m.nonneg[g.t]; ok {
+		return !v
+	}
+	// ask the solver whether the path condition allows a negative value
+	neg := m.pool.Bin(smt.OpBvSlt, g.t, m.pool.BV(0, g.t.W))
+	m.needBV(neg)
+	m.sess.Push()
+	m.sess.Assert(neg)
+	r := m.sess.Check()
+	m.sess.Pop()
+	m.nonneg[g.t] = r == smt.Unsat
+	return r != smt.Unsat
+}
+
+// ropeUnambiguous: no two tokens adjacent, no opaque parts; literals next to a token do not
+// begin/end with characters a token rendering could contain.
 func (m *Machine) ropeUnambiguous(s *symStr) bool {
-	tokc := func(c byte) bool { return isDigit(c) || c == '.' || c == '-' }
 	for i, g := range s.segs {
 		if g.k == segLit {
 			continue
@@ -190,14 +202,14 @@ func (m *Machine) ropeUnambiguous(s *symStr) bool {
 		if g.k == segOpaque {
 			return false
 		}
+		tokc := func(c byte) bool { return isDigit(c) || c == '.' }
 		if i > 0 {
 			p := s.segs[i-1]
 			if p.k != segLit {
 				return false
 			}
 			c := p.lit[len(p.lit)-1]
-			// a '-' before a token is fine when the token is an IPv4 (ranges "a-b") or unsigned
-			if tokc(c) && !(c == '-' && (g.k == segIP4 || !g.signed)) {
+			if tokc(c) || (c == '-' && g.k == segDec && m.decMayBeNegative(g)) {
 				return false
 			}
 		}
@@ -206,13 +218,58 @@ func (m *Machine) ropeUnambiguous(s *symStr) bool {
 			if n.k != segLit {
 				return false
 			}
-			c := n.lit[0]
-			if tokc(c) && c != '-' {
+			if tokc(n.lit[0]) {
 				return false
+			}
+		}
+		if g.k == segDec && m.decMayBeNegative(g) {
+			// a possibly negative number: '-' inside literals elsewhere could be confused
+			for _, o := range s.segs {
+				if o.k == segLit && strings.Contains(o.lit, "-") {
+					return false
+				}
 			}
 		}
 	}
 	return true
+}
+
+// ropeLess decides x < y when it is determined by the leading literal text.
+func (m *Machine) ropeLess(x, y value) bool {
+	lead := func(v value) (string, bool) { // leading literal, and whether it is the whole string
+		switch v := v.(type) {
+		case string:
+			return v, true
+		case *symStr:
+			if len(v.segs) > 0 && v.segs[0].k == segLit {
+				return v.segs[0].lit, false
+			}
+			return "", false
+		}
+		panic(unsupported("ropeLess operand"))
+	}
+	a, aw := lead(x)
+	b, bw := lead(y)
+	n := len(a)
+	if len(b) < n {
+		n = len(b)
+	}
+	if a[:n] != b[:n] {
+		return a[:n] < b[:n]
+	}
+	if aw && bw {
+		return a < b
+	}
+	if aw && len(a) <= len(b) { // a is a (proper or equal) prefix of b's literal lead: a < b unless equal
+		if len(a) < len(b) {
+			return true
+		}
+		return true // b continues with a token after the same literal: b is longer
+	}
+	if bw && len(b) <= len(a) {
+		return false
+	}
+	panic(unsupported("ordering of symbolic strings not decided by their literal prefix: " + toString(x) + " vs " + toString(y)))
 }
 
 // ropeEqConcrete matches a concrete string against the rope pattern.
